@@ -43,6 +43,7 @@ func fixedBytes(items []Item) (n int, loops []Item) {
 }
 
 func runC12(c *Ctx) {
+	defer c08SizeGuard(c, "C12.15")
 	w := c.W
 	defer func() {
 		ruleDecoderBounds(c, "C12.4")
